@@ -5,6 +5,7 @@ import (
 	"fmt"
 	"io"
 	"math"
+	"math/bits"
 	"slices"
 	"strconv"
 
@@ -390,40 +391,91 @@ func adjacentQuadrantY(quadrantI int) int {
 	return quadrantI ^ 0b10
 }
 
-// lineIntersects tests whether a line intersects with an extent.
-// TODO this can probably be faster by reusing the edges for the other three quadrants and/or only testing relevant edges (hints)
+// lineIntersects tests whether a (closed) line segment intersects with an extent.
+// The right and top edges of the extent are exclusive (see containsPoint).
+// The test is exact, it only uses integers (with 128 bit intermediate products):
+// A point on the segment is p(t) = p1 + t*(p2-p1) with 0 <= t <= 1.
+// Per axis the extent puts a lower and an upper bound on t,
+// inclusive on the side of the left/bottom edge and exclusive on the side of the right/top edge.
+// The segment intersects the extent if and only if every lower bound is compatible with every upper bound.
 func lineIntersects(intLine intgeom.Line, intExtent intgeom.Extent) bool {
-	// First see if a point is inside (cheap test).
-	pt1IsInsideQuadrant := containsPoint(intLine[0], intExtent)
-	pt2IsInsideQuadrant := containsPoint(intLine[1], intExtent)
-	if pt1IsInsideQuadrant || pt2IsInsideQuadrant {
-		return true
-	}
-
-	for edgeI, intEdge := range intExtent.Edges(nil) {
-		intersection, intersects := intgeom.SegmentIntersect(intLine, intEdge)
-		// Checking for intersection cq crossing is not enough. The right and top edges are exclusive.
-		// So there are exceptions ...:
-		if intersects { //nolint:nestif
-			if isExclusiveEdge(edgeI) {
-				if intLine[0] == intersection || intLine[1] == intersection {
-					// The tip of a line coming from the outside touches the (exclusive) edge.
-					continue
-				}
-			} else {
-				// The tip of a line coming from the outside touches the exclusive tip of an inclusive edge.
-				exclusivePoint := getExclusiveTip(edgeI, intEdge)
-				if intLine[0] == exclusivePoint || intLine[1] == exclusivePoint {
-					continue
-				}
+	lowerBounds := append(make([]paramBound, 0, 3), paramBound{0, 1, false})
+	upperBounds := append(make([]paramBound, 0, 3), paramBound{1, 1, false})
+	for ax := xAx; ax <= yAx; ax++ {
+		from := intLine[0][ax]
+		delta := intLine[1][ax] - from
+		minOrd := intExtent[ax]   // inclusive
+		maxOrd := intExtent[ax+2] // exclusive
+		switch {
+		case delta == 0:
+			if from < minOrd || from >= maxOrd {
+				return false
 			}
-			return true
-		} else if !isExclusiveEdge(edgeI) && lineOverlapsInclusiveEdge(intLine, edgeI, intEdge) {
-			// No intersection but overlap on an inclusive edge.
-			return true
+		case delta > 0:
+			lowerBounds = append(lowerBounds, paramBound{minOrd - from, delta, false})
+			upperBounds = append(upperBounds, paramBound{maxOrd - from, delta, true})
+		default:
+			lowerBounds = append(lowerBounds, paramBound{from - maxOrd, -delta, true})
+			upperBounds = append(upperBounds, paramBound{from - minOrd, -delta, false})
 		}
 	}
-	return false
+	for _, lowerBound := range lowerBounds {
+		for _, upperBound := range upperBounds {
+			if !lowerBound.leavesRoomBelow(upperBound) {
+				return false
+			}
+		}
+	}
+	return true
+}
+
+// paramBound is a bound num/den (with den > 0) on the parameter t of a point on a line segment.
+// If strict, the bound itself is excluded.
+type paramBound struct {
+	num    int64
+	den    int64
+	strict bool
+}
+
+// leavesRoomBelow tells whether there is a t that satisfies both this lower bound and the given upper bound
+func (lowerBound paramBound) leavesRoomBelow(upperBound paramBound) bool {
+	switch cmpProducts(lowerBound.num, upperBound.den, upperBound.num, lowerBound.den) {
+	case -1:
+		return true
+	case 0:
+		return !lowerBound.strict && !upperBound.strict
+	default:
+		return false
+	}
+}
+
+// cmpProducts compares a*b to c*d (-1, 0 or +1) for positive b and d, without overflowing
+func cmpProducts(a, b, c, d int64) int {
+	if (a < 0) != (c < 0) {
+		if a < 0 {
+			return -1
+		}
+		return 1
+	}
+	if a < 0 { // both negative, compare the magnitudes the other way around
+		a, b, c, d = -c, d, -a, b
+	}
+	abHi, abLo := bits.Mul64(uint64(a), uint64(b))
+	cdHi, cdLo := bits.Mul64(uint64(c), uint64(d))
+	switch {
+	case abHi != cdHi:
+		if abHi < cdHi {
+			return -1
+		}
+		return 1
+	case abLo != cdLo:
+		if abLo < cdLo {
+			return -1
+		}
+		return 1
+	default:
+		return 0
+	}
 }
 
 func (ix *PointIndex) GetHitMultiple(l Level) map[intgeom.Point][]int {
@@ -445,48 +497,6 @@ func checkPointHits(ix *PointIndex, vertex intgeom.Point, ringID int, level uint
 		// first hit of this point by any ring
 		levelHitOnce[vertex] = append(levelHitOnce[vertex], ringID)
 	}
-}
-
-func isExclusiveEdge(edgeI int) bool {
-	i := edgeI % 4
-	return i == 1 || i == 2
-}
-
-// getExclusiveTip returns the tip point of an inclusive edge that is not-inclusive
-func getExclusiveTip(edgeI int, edge intgeom.Line) intgeom.Point {
-	i := edgeI % 4
-	if i == 0 {
-		return edge[1]
-	} else if i == 3 {
-		return edge[0]
-	}
-	panic(fmt.Sprintf("not an inclusive edge: %v", edgeI))
-}
-
-// lineOverlapsInclusiveEdge helps to check if a line overlaps an inclusive edge (excluding the exclusive tip)
-func lineOverlapsInclusiveEdge(intLine intgeom.Line, edgeI int, intEdge intgeom.Line) bool {
-	var constAx, varAx int
-	switch {
-	case intEdge[0][xAx] == intEdge[1][xAx]:
-		constAx = xAx
-		varAx = yAx
-	case intEdge[0][yAx] == intEdge[1][yAx]:
-		constAx = yAx
-		varAx = xAx
-	default:
-		panic(fmt.Sprintf("not a straight edge: %v", intEdge))
-	}
-	eConstOrd := intEdge[0][constAx]
-	if intLine[0][constAx] != eConstOrd || intLine[1][constAx] != eConstOrd {
-		return false // not a straight line and/or not on same line as the edge, so no overlap
-	}
-	eOrd1 := intEdge[0][varAx]
-	eOrd2 := intEdge[1][varAx]
-
-	exclusiveTip := getExclusiveTip(edgeI, intEdge)
-	lOrd1 := intLine[0][varAx]
-	lOrd2 := intLine[1][varAx]
-	return lOrd1 != lOrd2 && (mathhelp.IBetweenInc(lOrd1, eOrd1, eOrd2) && intLine[0] != exclusiveTip || mathhelp.IBetweenInc(lOrd2, eOrd1, eOrd2) && intLine[1] != exclusiveTip)
 }
 
 func oneIfRight(quadrantI int) int {
